@@ -49,7 +49,42 @@ func (g *gen) validateStmt() {
 	}
 	g.feat("validator")
 	bit := g.bit()
-	switch g.intn(6, "valk") {
+	switch g.intn(9, "valk") {
+	case 6:
+		// the negated verdict is stored before it is branched on
+		bad := g.fresh()
+		g.emit("%s := !validate1(%d, %s)", bad, bit, v.name)
+		g.emit("if %s {", bad)
+		g.indent++
+		g.block(1 + g.intn(2, "valn"))
+		g.indent--
+		if g.chance(50, "valelse") {
+			g.emit("} else {")
+			g.indent++
+			g.block(1 + g.intn(2, "valn2"))
+			g.indent--
+		}
+		g.emit("}")
+		g.feat("validator-stored-negation")
+	case 7:
+		g.emit("if err := validateE(%d, %s); err != nil {", bit, v.name)
+		g.indent++
+		g.block(1 + g.intn(2, "valn"))
+		g.indent--
+		g.emit("} else {")
+		g.indent++
+		g.block(1 + g.intn(2, "valn2"))
+		g.indent--
+		g.emit("}")
+		g.feat("validator-error-negated")
+	case 8:
+		// double negation and conjunction with an opaque condition
+		g.emit("if !(!validate1(%d, %s)) && cond(%d) {", bit, v.name, g.bit())
+		g.indent++
+		g.block(1 + g.intn(2, "valn"))
+		g.indent--
+		g.emit("}")
+		g.feat("validator-double-negation")
 	case 0:
 		g.emit("if validate1(%d, %s) {", bit, v.name)
 		g.indent++
